@@ -92,7 +92,7 @@ static void scenario_body(const scn_t* s, int reference, sch_trace* tr) {
 static sch_trace* TR;        /* MAP_SHARED */
 static uint32_t RACY[SCH_MAXRACY]; static int NRACY;          /* promoted set in force (constant during one search round) */
 static uint32_t PEND[SCH_MAXRACY]; static int NPEND;          /* found so far; becomes the set in force at the next round */ static sch_race RACES[128]; static int NRACES;
-static long N_EXEC, N_INTERLEAVED, N_REPLAY_CHECKS, MAX_POINTS, SUM_POINTS; static long KIND_POINTS[SCH_K_NKINDS];
+static long N_DETECT; static long N_EXEC, N_INTERLEAVED, N_REPLAY_CHECKS, MAX_POINTS, SUM_POINTS; static long KIND_POINTS[SCH_K_NKINDS];
 static void run_exec(const scn_t* s, const uint8_t* prefix, int nprefix, int reference, int detect) {
     memset(TR, 0, offsetof(sch_trace, pt)); TR->nprefix = nprefix; if (nprefix) memcpy(TR->prefix, prefix, (size_t)nprefix);
     TR->nracy_in = NRACY; memcpy(TR->racy_in, RACY, sizeof(uint32_t) * (size_t)NRACY); TR->omp_max_threads = s->nt; TR->detect = detect; TR->done = 0; TR->nraces = 0; TR->npoints = 0;
@@ -142,7 +142,9 @@ static void judge(dfs_t* D, const xres* x) {
 }
 static void explore(dfs_t* D, const uint8_t* prefix, int nprefix) {
     if (mc_expired() || D->violations) return;
-    run_exec(D->s, prefix, nprefix, 0, D->detect);
+    int ndev = 0; for (int i = 0; i < nprefix; i++) if (prefix[i]) ndev++;
+    run_exec(D->s, prefix, nprefix, 0, D->detect && ndev <= 1);      /* the happens-before detector is schedule-insensitive on a fixed path: it runs on every schedule with <= 1 deviation */
+    if (D->detect && ndev <= 1) N_DETECT++;
     xres x; snapshot(&x); sch_race races[64]; int nraces = TR->nraces; memcpy(races, TR->races, sizeof races);
     judge(D, &x);                                   /* replays use the promoted set this execution ran with */
     if (x.status == SCH_OK && !D->violations && (N_EXEC & 63) == 0) replay_must_match(D->s, &x, "passing");
@@ -161,7 +163,9 @@ static void explore(dfs_t* D, const uint8_t* prefix, int nprefix) {
     free(ch); free(x.pt);
 }
 
+static int LAST_ROUNDS, LAST_NOFIX;
 static void run_scenario(const scn_t* s) {
+    LAST_ROUNDS = 0; LAST_NOFIX = 0;
     build_file(s); NRACY = 0; NPEND = 0;                      /* every case is self-contained: the promoted set is rebuilt per case */
     dfs_t D; memset(&D, 0, sizeof D); D.s = s; D.detect = s->nt <= 4;
     run_exec(s, NULL, 0, 1, 0);
@@ -171,9 +175,9 @@ static void run_scenario(const scn_t* s) {
     /* discovery: default schedule with the detector on until the promoted set is stable, then the search; restart if the search promotes more */
     if (D.detect) for (int i = 0; i < 8; i++) { run_exec(s, NULL, 0, 0, 1); N_EXEC--; if (TR->status != SCH_OK || !collect_races()) break; memcpy(RACY, PEND, sizeof RACY); NRACY = NPEND; }
     int rounds = 0;
-    do { memcpy(RACY, PEND, sizeof RACY); NRACY = NPEND; D.racy_grew = false; if (rounds) N_EXEC = N_INTERLEAVED = SUM_POINTS = 0; explore(&D, NULL, 0); rounds++; } while (D.racy_grew && rounds < 6 && !mc_expired() && !D.violations);
-    mc_count("search-rounds", (uint64_t)rounds);
-    if (D.racy_grew && !D.violations && !mc_expired()) mc_count("fixpoint-not-reached", 1);
+    do { memcpy(RACY, PEND, sizeof RACY); NRACY = NPEND; D.racy_grew = false; if (rounds) N_EXEC = N_INTERLEAVED = SUM_POINTS = N_DETECT = 0; explore(&D, NULL, 0); rounds++; } while (D.racy_grew && rounds < 16 && !mc_expired() && !D.violations);
+    mc_count("search-rounds", (uint64_t)rounds); LAST_ROUNDS = rounds;
+    if (D.racy_grew && !D.violations && !mc_expired()) { mc_count("fixpoint-not-reached", 1); LAST_NOFIX = 1; }
 }
 
 static void enumerate(void) {
@@ -191,28 +195,34 @@ static void enumerate(void) {
         for (int kind = 0; kind < 2; kind++) for (int mode = 0; mode < 3; mode++) for (int ci = 0; ci < 3; ci++) for (int nti = 0; nti < 6; nti++) for (int bsi = 0; bsi < 2; bsi++) for (int shape = 0; shape < 4; shape++) {
             static const int NTA[] = { 2, 3, 4, 8, 16, 1 }; int nt = NTA[nti];
             scn_t s = { kind, mode, CODECS[ci], nt, bsi ? 12 : 4, shape, bound };
-            if (kind == 1) { if (nt > 3 || nt < 2 || bsi == 0 || shape > 1) continue; }                       /* B: 2-3 user threads, one batch size, two shapes */
-            else {
-                if (nt == 1) continue;
-                if (nt >= 8 && (bound > 1 || shape != 0 || bsi != 0)) continue;                                /* wide teams: c <= 1, one shape */
-                if (nt == 4 && bound == 2 && !mc_thorough()) continue;                                          /* quick: c = 2 up to 3 threads */
-                if (bound == 2 && !mc_thorough() && (shape >= 2 || bsi == 1)) continue;
-                if (nt == 4 && bound == 2 && (shape != 0 || bsi != 0)) continue;
+            if (nt == 1) continue;
+            bool base = shape == 0 && bsi == 0;                                                               /* base shape: 3 columns x 2 pages, batch smaller than a page */
+            if (kind == 1) {                                                                                    /* B: 2-3 user threads, batch >= page, two shapes */
+                if (nt > 3 || bsi == 0 || shape > 1) continue;
+                if (bound == 2 && !(mc_thorough() && nt == 2 && shape == 0 && ((mode == 0 && ci == 0) || (mode == 1 && ci == 2)))) continue;
+            } else {
+                if (nt >= 8 && (bound > 1 || !base)) continue;                                                 /* wide teams: c <= 1, base shape */
+                if (bound == 2) {
+                    if (nt > 4) continue;
+                    if (!mc_thorough()) { if (!base) continue; if (!((nt == 2 && (mode == 0 || (mode == 1 && ci == 2) || (mode == 2 && ci == 1))) || (nt == 3 && mode == 0 && ci == 0))) continue; }
+                    else { if (nt == 4 && !(base && mode == 0)) continue; if (nt == 3 && mode != 0 && !base) continue; }
+                }
             }
             if (!mc_next()) continue;
             mc_desc("%s", scn_desc(&s)); mc_case_key(mc_hash(scn_desc(&s), strlen(scn_desc(&s)), 7)); mc_nontrivial(); mc_budget_ms(0);
-            N_EXEC = N_INTERLEAVED = N_REPLAY_CHECKS = MAX_POINTS = SUM_POINTS = 0; memset(KIND_POINTS, 0, sizeof KIND_POINTS);
+            N_EXEC = N_INTERLEAVED = N_REPLAY_CHECKS = MAX_POINTS = SUM_POINTS = N_DETECT = 0; memset(KIND_POINTS, 0, sizeof KIND_POINTS);
             if (only_sched && mc_replaying()) {         /* replay one schedule: C07_SCHED=0.0.1 (or "default") */
                 build_file(&s); uint8_t pre[SCH_MAXPT]; int n = 0; NRACY = 0; const char* rz = getenv("C07_RACY"); if (rz) for (const char* p = rz; *p && NRACY < SCH_MAXRACY; ) { RACY[NRACY++] = (uint32_t)strtoul(p, (char**)&p, 16); if (*p == ',') p++; } if (strcmp(only_sched, "default")) for (const char* p = only_sched; *p && n < SCH_MAXPT; ) { pre[n++] = (uint8_t)strtol(p, (char**)&p, 10); if (*p == '.') p++; }
                 run_exec(&s, NULL, 0, 1, 0); uint64_t exp = TR->outcome; printf("single-threaded: [%s]\n", TR->detail);
                 run_exec(&s, pre, n, 0, 1); printf("schedule %s: status=%d %s outcome %s [%s] points=%d switches=%d\n", only_sched, TR->status, TR->msg, TR->outcome == exp ? "EQUAL" : "DIFFERENT", TR->detail, TR->npoints, TR->nswitches);
+                if (TR->status != SCH_OK || TR->outcome != exp) mc_fail("replayed-schedule-violates", "%s sched=%s: status %d %s, got [%s]", scn_desc(&s), only_sched, TR->status, TR->msg, TR->detail);
                 for (int i = 0; i < TR->npoints; i++) printf("  point %d: thread %d at %s, %d enabled, chose %d%s\n", i, TR->pt[i].tid, sch_kind_name(TR->pt[i].kind), TR->pt[i].n_enabled, TR->pt[i].chosen, TR->pt[i].cur_enabled && TR->pt[i].chosen ? " (preemption)" : "");
                 continue;
             }
             run_scenario(&s);
-            if (getenv("C07_VERBOSE")) { FILE* vf = fopen(getenv("C07_VERBOSE"), "a"); if (vf) { fprintf(vf, "%s: schedules=%ld interleaved=%ld maxpoints=%ld racy=%d\n", scn_desc(&s), N_EXEC, N_INTERLEAVED, MAX_POINTS, NRACY); fclose(vf); } }
-            mc_count("schedules", (uint64_t)N_EXEC); mc_count("schedules.interleaved", (uint64_t)N_INTERLEAVED); mc_count("replay-determinism-checks", (uint64_t)N_REPLAY_CHECKS);
-            mc_count("choice-points.sum", (uint64_t)SUM_POINTS); { char k[64]; snprintf(k, sizeof k, "choice-points.max.%c.nt%d", kind ? 'B' : 'A', nt); static long seen[2][17]; if (MAX_POINTS > seen[kind][nt]) { mc_count(k, (uint64_t)(MAX_POINTS - seen[kind][nt])); seen[kind][nt] = MAX_POINTS; } }
+            if (getenv("C07_VERBOSE")) { FILE* vf = fopen(getenv("C07_VERBOSE"), "a"); if (vf) { fprintf(vf, "%s: schedules=%ld interleaved=%ld maxpoints=%ld racy=%d rounds=%d nofix=%d\n", scn_desc(&s), N_EXEC, N_INTERLEAVED, MAX_POINTS, NRACY, LAST_ROUNDS, LAST_NOFIX); fclose(vf); } }
+            mc_count("schedules", (uint64_t)N_EXEC); mc_count("schedules.with-race-detector", (uint64_t)N_DETECT); mc_count("schedules.interleaved", (uint64_t)N_INTERLEAVED); mc_count("replay-determinism-checks", (uint64_t)N_REPLAY_CHECKS);
+            mc_count("choice-points.sum", (uint64_t)SUM_POINTS);
             for (int k = 1; k < SCH_K_NKINDS; k++) if (KIND_POINTS[k]) { char nm[64]; snprintf(nm, sizeof nm, "points.%s", sch_kind_name(k)); mc_count(nm, (uint64_t)KIND_POINTS[k]); }
             mc_outcome(N_INTERLEAVED ? "interleaved" : "not-interleaved");
         }
